@@ -209,8 +209,17 @@ class IndexSpace(Space):
             else:
                 kind, text = "formula", "returned %r, the published formula gives %s" % (float(o.ravel()[j]), ev)
             sig = None
-            if self.fn_name == "savi" and kind == "formula":
-                sig = "savi|published_formula|(1+L)"
+            if self.fn_name == "savi":
+                # known finding: the implementation DIVIDES by (1+L) where Huete's formula multiplies.  Only an output that
+                # is exactly that documented-in-the-repo form is attributed to the finding; anything else is a new violation.
+                L = float(params[0])
+                e_div = np.full_like(e, np.nan) if L == -1.0 else e / (1.0 + L) ** 2
+                with np.errstate(invalid="ignore"):
+                    same_div = (np.isnan(of) == np.isnan(e_div)) & (np.isnan(e_div) | (np.abs(of - e_div) <= RTOL * np.abs(e_div) + ATOL))
+                if bool(np.all(same_div | outside)):
+                    kind, sig = "formula", "savi|divides-by-(1+L)-instead-of-multiplying"
+                else:
+                    kind = "formula-other"
             self.viol(out, rank, kind, dt, pi, t, text, observed=o, expected=e.reshape(o.shape), sig=sig)
             return
         # ---- relations of the normalised-difference indices --------------------------------------------
